@@ -22,6 +22,7 @@ import (
 	"google.golang.org/grpc/connectivity"
 	"google.golang.org/grpc/credentials"
 	"google.golang.org/grpc/metadata"
+	"google.golang.org/grpc/peer"
 	"google.golang.org/grpc/stats"
 	"google.golang.org/grpc/status"
 )
@@ -118,6 +119,14 @@ func (g GrpcProxyInterceptor) Stream(srv interface{}, stream grpc.ServerStream, 
 		g.StatsHandler.NoRoute.Add(1)
 		log.Println("[WARN] grpc: no route found for", info.FullMethod)
 		return status.Error(codes.NotFound, "no route found")
+	}
+
+	var remote net.Addr
+	if p, ok := peer.FromContext(ctx); ok {
+		remote = p.Addr
+	}
+	if target.AccessDeniedAddr(remote) {
+		return status.Error(codes.PermissionDenied, "access denied")
 	}
 
 	ctx = context.WithValue(ctx, targetKey{}, target)
